@@ -1305,6 +1305,21 @@ class Lowerer:
             i = k
             if o.get('kind') == 'EnumConstantDecl' and o.get('name') == name:
                 val = self._find_value(o)
+        if val is None:
+            # enumerator without an explicit initialiser (e.g. glibc's _REG_NOMATCH): let the compiler evaluate it - an undefined
+            # template instantiated with the constant makes clang print its value in the diagnostic
+            probe = src + '.enumprobe.cpp'
+            with open(probe, 'w') as f:
+                f.write('#include "%s"\ntemplate<long long V> struct mv_show_value; mv_show_value<(long long)%s> mv_probe;\n' % (src, name))
+            q = subprocess.run(['clang++'] + (getattr(self, 'tu_flags', None) or CLANG_FLAGS_CXX11) + ['-I', self.repo, '-fsyntax-only', '-Wno-everything', probe],
+                               stdout=subprocess.PIPE, stderr=subprocess.PIPE, text=True)
+            m = re.search(r"mv_show_value<(-?\d+)>", q.stderr)
+            try:
+                os.unlink(probe)
+            except OSError:
+                pass
+            if m:
+                val = m.group(1)
         cache[name] = val
         return val
 
